@@ -6,7 +6,7 @@ Lifted from /repo on every run and given meaning by the C compiler:
     -> next_serial_samples (counter before, serial returned, counter after);
   * the initial value of client_serial in _dbus_connection_new_for_transport -> initial_client_serial;
   * RANDOM_INDEX and the initial down_shift / mask / table size / rebuild multiplier of dbus/dbus-hash.c,
-    evaluated for the keys 0..63 and a few large ones -> hash_bucket_samples, hash_rebuild_threshold
+    evaluated for the keys 0..63 and a few large ones (passed as the C code passes them: the unsigned serial converted to int, then to a pointer) -> hash_bucket_samples, hash_rebuild_threshold
     (the order in which connection_timeout_and_complete_all_pending_calls_unlocked walks pending_replies).
 coq/Proofs/PendingTie.v checks the model's next_serial / init / bucket against these tables by vm_compute,
 so a change of the C text breaks a proof (and the correspondence run then looks for the failing input).
@@ -81,8 +81,8 @@ int main (void)
     { dbus_uint32_t s; c.client_serial = cs[i]; s = next_serial (&c); printf ("%%s(%%u, (%%u, %%u))", i ? "; " : "", cs[i], s, c.client_serial); }
   printf ("].\n");
   printf ("Definition hash_bucket_samples : list (N * N) := [");
-  for (i = 0; i < 64; i++) printf ("%%s(%%u, %%ld)", i ? "; " : "", i, (long) (RANDOM_INDEX (table, (uintptr_t) i)));
-  for (i = 0; i < sizeof ks / sizeof ks[0]; i++) printf ("; (%%llu, %%ld)", ks[i], (long) (RANDOM_INDEX (table, (uintptr_t) ks[i])));
+  for (i = 0; i < 64; i++) printf ("%%s(%%u, %%ld)", i ? "; " : "", i, (long) (RANDOM_INDEX (table, (void *) (intptr_t) (int) i)));
+  for (i = 0; i < sizeof ks / sizeof ks[0]; i++) printf ("; (%%llu, %%ld)", ks[i], (long) (RANDOM_INDEX (table, (void *) (intptr_t) (int) (dbus_uint32_t) ks[i])));
   printf ("].\n");
   printf ("Definition hash_rebuild_threshold : N := %%d.\n", tab.hi_rebuild_size);
   return 0;
